@@ -307,8 +307,7 @@ def build_driver():
         for s in srcs:
             shutil.copy(s, d)
         files = "model.mli model.ml " + " ".join(names)
-        sh("ocamlfind ocamlopt -O2 -w -a -package str %s -o driver 2>&1 || "
-           "ocamlfind ocamlopt -w -a %s -o driver" % (files, files), cwd=d, timeout=600)
+        sh("ocamlfind ocamlopt -w -a -package str -linkpkg %s -o driver" % files, cwd=d, timeout=600)
         open(stamp, "w").write(h)
         return exe
 
